@@ -400,6 +400,7 @@ class Program:
         # helpers outside the rules' vocabulary are spliced into their callers (see inline.py)
         self.inline_report = {"unknown_functions": [], "spliced": []}
         self.inlined_away = set()
+        self.spawn_alias = {}
         kp = known_fns_path or os.path.join(os.path.dirname(os.path.dirname(os.path.dirname(os.path.abspath(__file__)))), "rules", "baseline_fns.txt")
         if os.path.isfile(kp) and not os.environ.get("VERIF_NO_INLINE"):
             with open(kp) as fh:
@@ -421,6 +422,15 @@ class Program:
                 if n:
                     self.threaded += n
                     self.bodies[key] = Body(j, b.crate)
+
+    def owner(self, key):
+        """enclosing named function of a (possibly spawned) body; a helper that only names a task body (11.6) reports as the
+        function that starts the task"""
+        base = key.split("::{closure")[0]
+        for _ in range(4):
+            if base in self.spawn_alias:
+                base = self.spawn_alias[base]
+        return base
 
     def scan(self):
         """(key, body) of every body a crate-wide rule should look at: helper bodies that were spliced into all of
